@@ -48,7 +48,29 @@ ALPHABET = ([{"name": "reset", "qubits": [q]} for q in (0, 1)] + [{"name": "h", 
             + [{"name": "barrier", "qubits": [0]}, {"name": "barrier", "qubits": [1]}, {"name": "barrier", "qubits": [0, 1]}])
 
 
+def _applied_cases(rng, tier):
+    """the removals as the package applies them while generating subexperiments: circuits with explicit resets (leading, inner, trailing),
+    no or one cut, observables supported on one qubit (qubit 0 in particular), identity groups"""
+    from .. import workflow
+    for _ in range(30 if tier == "quick" else 400):
+        p = workflow.gen_problem(rng, max_q=3, max_cuts=rng.choice([0, 0, 1]), depth=4, idle_ok=False)
+        nq = p["nq"]
+        for _ in range(rng.randint(1, 3)):
+            p["instrs"].insert(rng.randint(0, len(p["instrs"])), {"name": "reset", "qubits": [rng.randrange(nq)]})
+        for q in rng.sample(range(nq), rng.randint(1, nq)):
+            p["instrs"].append({"name": "reset", "qubits": [q]})
+        sup = rng.choice([0, 0, rng.randrange(nq)])
+        p["obs"] = [{"l": "".join(rng.choice("XYZ") if q == sup else "I" for q in range(nq)), "p": 0} for _ in range(rng.randint(1, 2))]
+        if rng.random() < 0.3:
+            p["obs"].append({"l": "I" * nq, "p": 0})
+        p["form"] = rng.choice(["dict", "single"])
+        p["N"] = None
+        p["seed"] = 0
+        yield ("applied", p)
+
+
 def cases(rng, tier):
+    yield from _applied_cases(rng, tier)
     N = 120 if tier == "quick" else 1500
     for _ in range(N):
         n = rng.randint(1, 4)
@@ -114,33 +136,49 @@ def _view(instrs, payload):
 
 
 def model_line(kind, payload):
+    if kind == "applied":
+        from . import c05
+        return c05.model_line("generate", payload)
     return {"op": "c12.pass", "which": payload["which"], "circuit": canon.canon_circuit(_circ(payload))}
 
 
 def run_real(kind, payload):
+    if kind == "applied":
+        from . import c05
+        return c05.run_real("generate", payload)
     qc = _circ(payload)
     out = _apply(qc, payload["which"])
     return {"ok": _view(canon.canon_circuit(out)["instrs"], payload)}
 
 
 def model_canon(kind, payload, out):
+    if kind == "applied":
+        from . import c05
+        return c05.model_canon("generate", payload, out)
     if "driver_error" in out:
         raise RuntimeError(out["driver_error"])
     return {"ok": _view(out["ok"]["instrs"], payload)}
 
 
 def compare(kind, payload, real, model):
+    if kind == "applied":
+        from . import c05
+        return c05.compare("generate", payload, real, model)
     if real != model:
         return f"real={json.dumps(real)[:300]} model={json.dumps(model)[:300]}"
     return None
 
 
 def describe(kind, payload):
+    if kind == "applied":
+        return {"kind2": "applied", "form": payload["form"]}
     return {"which": payload["which"], "nq": payload["nq"], "len": len(payload["prog"]),
             "resets": sum(1 for p in payload["prog"] if p["name"] == "reset")}
 
 
 def nontrivial_key(kind, payload):
+    if kind == "applied":
+        return hash(json.dumps(payload, sort_keys=True, default=str))
     if not any(p["name"] == "reset" for p in payload["prog"]):
         return None
     return hash(json.dumps(payload, sort_keys=True))
@@ -158,6 +196,11 @@ def _ptrace_keep(rho, keep, n):
 
 
 def oracle(kind, payload):
+    if kind == "applied":
+        # measurement statistics are unchanged: the generated experiments, evaluated exactly, give the expectation values of the circuit
+        from . import c01
+        why = c01.oracle("roundtrip", payload)
+        return None if why is None else "reset removal inside experiment generation changed the statistics: " + why
     """Property itself on the real code: only resets removed, order kept (per wire for DAG passes), and the joint
     classical distribution + conditional state of all qubits other than those whose trailing reset was dropped is unchanged."""
     from ..oracles.refsim import simulate
